@@ -429,7 +429,9 @@ func (s *Skiplist) GetRangeSplitItems(nways int) []unsafe.Pointer {
 	var deleted bool
 repeat:
 	var itms []unsafe.Pointer
-	var finished bool
+	// nways-1 pivots are needed; a single range needs none (and the pivot
+	// count below would never be reached)
+	finished := nways < 2
 
 	l := int(atomic.LoadInt32(&s.level))
 	for ; l >= 0; l-- {
